@@ -18,7 +18,17 @@ def instance_of(sig):
     return None
 
 
-def search(quick=True, seed=0):
+def search(quick=True, seed=0, first=None):
+    if first == "innate":
+        n1, bad = _search(quick, seed, only="innate")
+        if bad:
+            return n1, bad
+        n2, bad = _search(quick, seed, only="membrane")
+        return n1 + n2, bad
+    return _search(quick, seed, only=None)
+
+
+def _search(quick=True, seed=0, only=None):
     from operon_ai.organelles.membrane import Membrane, ThreatSignature, ThreatLevel
     from operon_ai.core.types import Signal
     from operon_ai.surveillance import innate as inn
@@ -27,7 +37,7 @@ def search(quick=True, seed=0):
     hostile = ["\ud800", "a\udfffb", "\x00\x01\x02", "[" * 50000, "1" * 5000, "{" + '"a":' * 3000, "x" * 150000, "", " ", "‮", "é" * 1000]
     benign_pads = [("", ""), ("please ", " thanks"), ("Dear team,\n", "\nBest"), ("x" * 1000, "y" * 1000), ("\n\n", "\t")]
     # ---------- membrane
-    for threshold in (ThreatLevel.SUSPICIOUS, ThreatLevel.DANGEROUS, ThreatLevel.CRITICAL):
+    for threshold in ((ThreatLevel.SUSPICIOUS, ThreatLevel.DANGEROUS, ThreatLevel.CRITICAL) if only != "innate" else ()):
         with contextlib.redirect_stdout(io.StringIO()):
             m0 = Membrane(threshold=threshold, silent=True)
         sigs = list(m0.signatures)
@@ -71,7 +81,7 @@ def search(quick=True, seed=0):
                 except Exception as e:
                     return n, f"Membrane.filter raised {type(e).__name__} on hostile input {text[:20]!r} (len {len(text)})"
     # learned / imported signatures are scanned; forgetting keeps memory
-    for is_regex in (False, True):
+    for is_regex in ((False, True) if only != "innate" else ()):
         n += 1
         with contextlib.redirect_stdout(io.StringIO()):
             m = Membrane(silent=True)
@@ -86,7 +96,7 @@ def search(quick=True, seed=0):
             return n, f"learned/imported signature not enforced or memory lost (regex={is_regex}): {r.allowed, r2.allowed, r3.allowed}"
     # rate limit with a fake clock
     import operon_ai.organelles.membrane as mm
-    for limit in (1, 2, 3):
+    for limit in ((1, 2, 3) if only != "innate" else ()):
         n += 1
         clock = [1000.0]
         real_time = mm.time.time
@@ -106,6 +116,8 @@ def search(quick=True, seed=0):
         finally:
             mm.time.time = real_time
     # ---------- innate immunity + validators
+    if only == "membrane":
+        return n, None
     validators = [inn.JSONValidator(), inn.LengthValidator(max_length=100_000), inn.CharacterSetValidator()]
     for v in validators:
         for text in hostile + ['{"a": 1}', "[1,2", "\t ok \n"]:
